@@ -3,6 +3,8 @@ import time
 
 import z3
 
+from engine import xcheck
+
 from engine.pysym import Engine, Interp, SInt, Unsupported, lift
 from stix2.equivalence.pattern.transform import specials as S
 
@@ -44,7 +46,7 @@ def _mask(nbytes):
         s.add(*pc)
         s.add(z3.Not(post))
         eng.queries += 1
-        r = str(s.check())
+        r = xcheck.check(s)
         if r == "unsat":
             if len(samples) < 2:
                 samples.append({"bytes": nbytes, "path_condition": [str(x) for x in pc[-2:]], "query": "masked != addr - addr mod 2^(bits-p)", "result": "unsat"})
